@@ -19,6 +19,10 @@ func main() {
 		name, text = "Morton.lean", trMorton(filepath.Join(repo, "morton", "morton.go"))
 	case "flags":
 		name, text = "Flags.lean", trFlags(repo)
+	case "quadrants":
+		name, text = "Quadrants.lean", trQuadrants(repo)
+	case "mathhelp":
+		name, text = "Mathhelp.lean", trMathhelp(repo)
 	case "lineint":
 		name, text = "Lineint.lean", trLineInt(repo)
 	case "arith":
